@@ -309,3 +309,71 @@ Theorem C06_view_is_uncompressed :
   view decode (drun decode take put s ops) = fold_left (apply_op put) ops (view decode s).
 Proof. exact @view_history. Qed.
 Print Assumptions C06_view_is_uncompressed.
+
+(* ---- equality ----
+   Data.equals is one of the ways compressed data are seen.  With
+   ignore_compression (the default) two data are equal exactly when their
+   uncompressed arrays are - whatever the two sources are: compressed with
+   different count / index / list variables over the same compressed values
+   (not equal unless the arrays coincide), compressed differently or not at
+   all with the same array (equal).  [u_eqb] is the comparison of two arrays
+   (shape, type, values, mask), any decidable equality. *)
+Theorem C06_equals_is_uncompressed_equality :
+  forall (C U T K : Type) (decode : C -> U) (ctype : C -> T) (carr : C -> K)
+         (u_eqb : U -> U -> bool) (t_eqb : T -> T -> bool) (k_eqb : K -> K -> bool),
+  (forall x y, u_eqb x y = true <-> x = y) ->
+  forall s t : @dstate C U,
+  data_equals decode ctype carr u_eqb t_eqb k_eqb true s t = true <->
+  view decode s = view decode t.
+Proof. exact @equals_is_view_equality. Qed.
+Print Assumptions C06_equals_is_uncompressed_equality.
+
+(* With ignore_compression=False the documentation promises that the
+   compression type and the compressed arrays are the same AS WELL AS the
+   uncompressed arrays. *)
+Theorem C06_equals_strict :
+  forall (C U T K : Type) (decode : C -> U) (ctype : C -> T) (carr : C -> K)
+         (u_eqb : U -> U -> bool) (t_eqb : T -> T -> bool) (k_eqb : K -> K -> bool),
+  (forall x y, u_eqb x y = true <-> x = y) ->
+  forall s t : @dstate C U,
+  data_equals decode ctype carr u_eqb t_eqb k_eqb false s t = true <->
+  same_compression ctype carr t_eqb k_eqb s t = true /\ view decode s = view decode t.
+Proof. exact @equals_strict. Qed.
+Print Assumptions C06_equals_strict.
+
+(* ---- the type of the count variable ----
+   The presented array does not depend on the integer type of the count
+   variable: any two types that hold the counts give the same array ... *)
+Theorem C06_count_type_irrelevant :
+  forall (A : Type) (miss : A) t t' nrows w stored (data : list A),
+  stored_ok t stored -> stored_ok t' stored ->
+  contiguous_decode_ty miss t nrows w stored data = contiguous_decode_ty miss t' nrows w stored data.
+Proof. exact @count_type_irrelevant. Qed.
+Print Assumptions C06_count_type_irrelevant.
+
+(* ... namely the array of CF 9.3.3 for the counts as integers - there is no
+   hypothesis on their SUM, which may lie far beyond the range of the type
+   (int8 counts 60, 50, 0, 40).  Accumulating the partial sums in the type of
+   the variable is refuted in Refuted.C06_partial_sums_in_count_type_refuted
+   and agrees only under the guard of C06_count_partial_sums_guard. *)
+Theorem C06_contiguous_decode_any_count_type :
+  forall (A : Type) (miss : A) t nrows w stored (data : list A),
+  stored_ok t stored -> Forall (fun v => (v <= Z.of_nat w)%Z) stored ->
+  exists u, contiguous_decode_ty miss t nrows w stored data = Ok u /\
+            length u = nrows /\ Forall (fun r => length r = w) u /\
+            forall i j, (i < nrows)%nat ->
+              nth j (nth i u []) miss = contig_spec miss (map Z.to_nat stored) data i j.
+Proof. exact @contiguous_decode_ty_spec. Qed.
+Print Assumptions C06_contiguous_decode_any_count_type.
+
+Theorem C06_count_partial_sums_guard :
+  forall (A : Type) (miss : A) t nrows w stored (data : list A),
+  stored_ok t stored -> (sumZ stored <= ity_max t)%Z -> (sumZ stored <= Z.of_nat (length data))%Z ->
+  contiguous_decode_wrapped miss t nrows w stored data = contiguous_decode_ty miss t nrows w stored data.
+Proof. exact @wrapped_agrees_when_sums_fit. Qed.
+Print Assumptions C06_count_partial_sums_guard.
+
+Theorem C06_count_type_example :
+  stored_ok I8 [60; 50; 0; 40]%Z /\ (ity_max I8 < sumZ [60; 50; 0; 40])%Z.
+Proof. exact count_type_example. Qed.
+Print Assumptions C06_count_type_example.
